@@ -34,3 +34,15 @@ Definition text_newline : G := Or (Then (Just [cr]) (OrNot (Just [lf]))) (t_clas
    only acceptance and extent are claimed for this derived form) *)
 Definition text_padded (a : G) : G := PaddedBy a (RepUnit text_whitespace).
 End Text.
+
+(* recovery::nested_delimiters(start, end, others, fallback) is a derived parser too (recovery.rs:234-275):
+     recursive(|block| ((block delimited by start..end) or (block delimited by s_i..e_i) .. or any().and_is(none_of(all delimiters)).ignored()).repeated())
+       .delimited_by(just(start), just(end)).map_with(|_, e| fallback(e.span()))
+   with fallback = the span itself *)
+Definition nested_delims (s e : tok) (others : list (tok * tok)) : G :=
+  let skip := s :: e :: concat (map (fun se => [fst se; snd se]) others) in
+  let many := fold_left (fun acc se => Or acc (DelimitedBy (Var 0) (Just [fst se]) (Just [snd se]))) others
+                        (DelimitedBy (Var 0) (Just [s]) (Just [e])) in
+  let block := Rec (RepUnit (IRep (Or many (Ignored (AndIs Any (NoneOf skip)))) 0 None)) in
+  ToSpan (DelimitedBy block (Just [s]) (Just [e])).
+
